@@ -295,10 +295,13 @@ set_option maxRecDepth 100000 in
 example : ∀ s ∈ allStrings [45, 42, 97] 4, wildStripText s = wildStripRx s := by decide
 set_option maxRecDepth 100000 in
 example : ∀ s ∈ allStrings [45, 42] 6, wildStripText s = wildStripRx s := by decide
--- `$` also matches before a final newline: on `de-*\n` the regexes do NOT act as `stripWild`
-example : wildStripRx ("de-*".toStr ++ [10]) = "de".toStr ++ [10] := by decide
-example : splitOn 45 (wildStripRx ("de-*".toStr ++ [10])) ≠
+-- the regexes anchor with `\Z` (they used `$`, which also matches before a final newline, so on
+-- `de-*\n` they did not act as `stripWild`; repaired in /repo): now they agree there too
+example : wildStripRx ("de-*".toStr ++ [10]) = "de-*".toStr ++ [10] := by decide
+example : splitOn 45 (wildStripRx ("de-*".toStr ++ [10])) =
     stripWild (splitOn 45 ("de-*".toStr ++ [10])) := by decide
+set_option maxRecDepth 100000 in
+example : ∀ s ∈ allStrings [45, 42, 10] 5, wildStripText s = wildStripRx s := by decide
 example : wildStripText ("de-*".toStr ++ [10]) = "de-*".toStr ++ [10] := by decide
 -- end to end on texts, through `extendedFilter_wildStripText_eq_c13`
 example : Lang.extendedFilter wildStripText "de-*-DE".toStr "de-Latn-DE".toStr = true := by
